@@ -133,6 +133,20 @@ int main(int argc, char** argv) {
         auto ga = gsl_from(A);
         SU_vector fromM(ga.get());
         expect_vec("from-matrix", fromM, A, mnorm1(A));
+        { // a Hermitian matrix passed as a VIEW into a larger matrix (row stride tda != size2) is the same matrix
+          gsl_matrix_complex* big = gsl_matrix_complex_alloc(d + 3, d + 2);
+          for (size_t i = 0; i < big->size1; i++) for (size_t j = 0; j < big->size2; j++) gsl_matrix_complex_set(big, i, j, gsl_complex_rect(100.0 + i, -50.0 - j));
+          gsl_matrix_complex_view vw = gsl_matrix_complex_submatrix(big, 2, 1, d, d);
+          for (int i = 0; i < d; i++) for (int j = 0; j < d; j++) gsl_matrix_complex_set(&vw.matrix, i, j, gsl_complex_rect(A(i, j).real(), A(i, j).imag()));
+          SU_vector fromV(&vw.matrix);
+          expect_same("from-matrix-view", fromV, fromM, 0);
+          SU_vector av = a; gsl_matrix_complex_view vw2 = gsl_matrix_complex_submatrix(big, 1, 0, d, d);
+          av.GetGSLMatrix(&vw2.matrix);
+          for (int i = 0; i < d; i++) for (int j = 0; j < d; j++) {
+            gsl_complex x = gsl_matrix_complex_get(&vw2.matrix, i, j), y = gsl_matrix_complex_get(m.get(), i, j);
+            if (GSL_REAL(x) != GSL_REAL(y) || GSL_IMAG(x) != GSL_IMAG(y)) { mismatch("GetGSLMatrix(view)", 1, 0); i = d; break; } }
+          gsl_matrix_complex_free(big);
+        }
         SU_vector lst(a.GetComponents());
         if (!(lst == a)) mismatch("list-roundtrip", 1, 0);
         for (int k = 0; k < d * d; k++) if (lst[k] != a[k]) { mismatch("list-roundtrip-bits", 1, 0); break; }
@@ -297,12 +311,21 @@ int main(int argc, char** argv) {
         if (op == "tob1") r.RotateToB1(params); else r.RotateToB0(params);
         expect_vec(op == "tob1" ? "RotateToB1" : "RotateToB0", r, R, SA * 16);
         auto U = params.GetTransformationMatrix(d);
+        // the same unitary handed over as a view into a larger matrix (tda != size2)
+        gsl_matrix_complex* bigU = gsl_matrix_complex_alloc(d + 2, d + 3);
+        for (size_t i = 0; i < bigU->size1; i++) for (size_t j = 0; j < bigU->size2; j++) gsl_matrix_complex_set(bigU, i, j, gsl_complex_rect(3.0 + i, 7.0 - j));
+        gsl_matrix_complex_view Uv = gsl_matrix_complex_submatrix(bigU, 1, 2, d, d);
+        gsl_matrix_complex_memcpy(&Uv.matrix, U.get());
         if (op == "tob1") {
           SU_vector r2 = a.Rotate(U.get()); expect_vec("Rotate(U)", r2, R, SA * 16);
           SU_vector r3 = a.UTransform(U.get()); expect_vec("UTransform(U)", r3, R, SA * 16);
+          SU_vector r4 = a.Rotate(&Uv.matrix); expect_same("Rotate(U view)", r4, r2, 0);
+          SU_vector r5 = a.UTransform(&Uv.matrix); expect_same("UTransform(U view)", r5, r3, 0);
         } else {
           SU_vector r3 = a.UDaggerTransform(U.get()); expect_vec("UDaggerTransform(U)", r3, R, SA * 16);
+          SU_vector r5 = a.UDaggerTransform(&Uv.matrix); expect_same("UDaggerTransform(U view)", r5, r3, 0);
         }
+        gsl_matrix_complex_free(bigU);
         // identity component and scalar products are preserved
         if (!(std::fabs(r[0] - a[0]) <= TOLF * EPS * (SA > 0 ? SA : 1))) mismatch("identity-component", std::fabs(r[0] - a[0]), 0);
       } else if (op == "wrot") {
@@ -315,6 +338,11 @@ int main(int argc, char** argv) {
         double S = SA * 64 * std::max(1.0, SY * SY);
         SU_vector r1 = a; r1.WeightedRotation(pv, Y, pw);
         expect_vec("WeightedRotation(Const)", r1, R, S);
+        if (p[3] == 1) {   // the operand IS the weight: the weight object may be the vector being transformed
+          SU_vector x1 = a; x1.WeightedRotation(pv, x1, pw); expect_same("x.WeightedRotation(V,x,W)", x1, r1, 0);
+          auto V2 = pv.GetTransformationMatrix(d); auto W2 = pw.GetTransformationMatrix(d);
+          SU_vector x2 = a; x2.WeightedRotation(V2.get(), x2, W2.get()); expect_same("x.WeightedRotation(Vm,x,Wm)", x2, r1, TOLF * EPS * (S > 0 ? S : 1));
+        }
         auto V = pv.GetTransformationMatrix(d); auto W = pw.GetTransformationMatrix(d);
         SU_vector r2 = a; r2.WeightedRotation(V.get(), Y, W.get());
         expect_vec("WeightedRotation(matrix)", r2, R, S);
